@@ -27,8 +27,13 @@ ASSUMPTIONS = ["integer-millisecond clock (sub-millisecond float behaviour is no
                "a queued answer whose service is unregistered before its deadline need not (C08: must not) be sent any more: the oracle "
                "takes the withdrawn records from the scenario's own unregister action, not from the queue",
                "the registry does not change while a truncated query is being held (candidate answers are read when a packet arrives); "
-               "it does change while answers are queued"]
+               "it does change while answers are queued",
+               "timer callbacks run exactly when due (stage C, every theorem); the scenarios numbered from LATE_BASE run the real responder on a loop "
+               "whose timers fire a seeded 0..3 ms late and are judged by the oracle alone: lower bounds (20 ms, 400 ms, one second) exactly, upper "
+               "bounds (500 ms, 1.2 s, hold 500 ms) plus 3 ms"]
 UNREG_BASE = 1_000_000   # trace scenarios numbered from here unregister services while answers are queued
+LATE_BASE = 2_000_000    # ... from here run on a loop whose timers fire a seeded 0..LATE ms late (oracle only: the model's loop facts exclude it)
+LATE = 3
 
 GRID = [0, 0, 1, 20, 20, 60, 119, 120, 121, 200, 380, 499, 500, 501, 880, 999, 1000, 1001, 1120, 1200]
 T0 = vsim.T0
@@ -340,7 +345,8 @@ def run_cls_stream(ctx, res):
 
 def run_scenario(seed, sc_no):
     """-> dict(tr, uni, zc, errors, infos, actions); fully determined by (seed, sc_no)"""
-    sim = vsim.Sim(seed="%s/%s" % (seed, sc_no), maxdelay=0)
+    late = LATE if isinstance(sc_no, int) and sc_no >= LATE_BASE else 0
+    sim = vsim.Sim(seed="%s/%s" % (seed, sc_no), maxdelay=0, max_late=late)
     rng = C.rng_for(seed, "c12", "tr", sc_no)
     jrng = C.rng_for(seed, "c12", "jitter", sc_no)
     sim.net.maxdelay = rng.choice([0, 0, 0, 1, 3, 20])
@@ -353,7 +359,8 @@ def run_scenario(seed, sc_no):
 
     sim.randint = biased
     box = {}
-    unreg_mode = isinstance(sc_no, int) and sc_no >= UNREG_BASE
+    unreg_mode = isinstance(sc_no, int) and UNREG_BASE <= sc_no < LATE_BASE
+    box["late"] = late
     urng = C.rng_for(seed, "c12", "unreg", sc_no)
 
     async def main(sim):
@@ -578,7 +585,7 @@ def spec_classes(tr, b, parsed_by_data):
     return out
 
 
-def tc_pass(res, tr, blocks, case, end_t):
+def tc_pass(res, tr, blocks, case, end_t, late=0):
     """Truncated queries, judged from what was *delivered* (not from what the listener chose to keep):
     every distinct TC packet of a source is held; the hold ends 400..500 ms after the last distinct packet, or at once
     when a packet without TC arrives from that source; all held packets (plus that one) are answered together, once.
@@ -629,7 +636,7 @@ def tc_pass(res, tr, blocks, case, end_t):
                 res.violate("C12:tc-assembly", "truncated-query timer fired although nothing of this source is pending", at)
             else:
                 b["want"] = want
-                if not (400 <= t - last_t[addr] <= 500):
+                if not (400 <= t - last_t[addr] <= 500 + late):
                     res.violate("C12:tc-hold", "truncated query answered %d ms after its last distinct packet (400..500 required)" % (t - last_t[addr]), at)
                 if not b["asm"] or b["asm"]["datas"] != want:
                     res.violate("C12:tc-assembly", "reply based on %s packet(s); %d distinct packets of this source were pending" % (
@@ -643,7 +650,8 @@ def tc_pass(res, tr, blocks, case, end_t):
 def check_trace_O(res, box, case):
     tr = box["tr"]
     blocks = tr.blocks
-    tc_pass(res, tr, blocks, case, box.get("end_t", blocks[-1]["t"] if blocks else 0))
+    L = box.get("late", 0)  # timers may run up to L ms late in this run: upper bounds get that slack, lower bounds none
+    tc_pass(res, tr, blocks, case, box.get("end_t", blocks[-1]["t"] if blocks else 0), L)
     # what a datagram asks for is read when it arrives (the registry may change later: the same bytes delivered again after an
     # unregistration have other candidate answers), so the table is filled in block order and consulted at each assembly
     parsed_by_data = {}
@@ -688,17 +696,17 @@ def check_trace_O(res, box, case):
                                 "being sent at once (the single-question test reads the first packet only)" % (info["npkts"], tr.uni.describe(rid)))
                         sig = "C12:train-first-packet-question-rule"
             elif cls == "agg":
-                if not any(j >= i and c <= s <= c + 500 and rid in ans for (j, s, ans, _a) in mcasts):
+                if not any(j >= i and c <= s <= c + 500 + L and rid in ans for (j, s, ans, _a) in mcasts):
                     what = "answer %s not multicast within 500 ms of the query" % tr.uni.describe(rid)
                     sig = "C12:aggregate-late"
             elif cls == "free":
-                if not any(j >= i and c <= s <= c + 1200 and rid in ans for (j, s, ans, _a) in mcasts):
+                if not any(j >= i and c <= s <= c + 1200 + L and rid in ans for (j, s, ans, _a) in mcasts):
                     what = "answer %s not multicast within 1.2 s of the truncated query being answered" % tr.uni.describe(rid)
                     sig = "C12:protected-late"
             elif cls == "prot":
                 # (that no multicast of it is *caused* by this query before sighting + 1 s is the justification rule below;
                 #  an earlier query's batch may legitimately carry it sooner -- DESIGN §7 C12)
-                if not any(j >= i and c <= s <= c + 1200 and rid in ans for (j, s, ans, _a) in mcasts):
+                if not any(j >= i and c <= s <= c + 1200 + L and rid in ans for (j, s, ans, _a) in mcasts):
                     what = "answer %s (seen %d ms before the query) not multicast within 1.2 s of the query" % (
                         tr.uni.describe(rid), info["t_last"] - info["seen"][0])
                     sig = "C12:protected-late"
@@ -740,7 +748,7 @@ def check_trace_O(res, box, case):
                     just = False
                     if cls == "now" and i == j:
                         just = True
-                    elif cls == "now" and i < j and not info["probe"] and info["first_packet_rule"] and not info["code_now"] and info["t_first"] + 20 <= s <= c + 500:
+                    elif cls == "now" and i < j and not info["probe"] and info["first_packet_rule"] and not info["code_now"] and info["t_first"] + 20 <= s <= c + 500 + L:
                         # FINDING (the other half): the train's only question is not in its first packet, the code aggregates the answer
                         finding = finding or ("C12:train-first-packet-question-rule",
                                               "truncated train of %d packets whose only question (SRV/A/AAAA/NSEC) is not in its first packet: %s is aggregated and multicast at "
@@ -750,7 +758,7 @@ def check_trace_O(res, box, case):
                             d12 = info
                         else:
                             just = True
-                    elif cls == "agg" and i <= j and info["t_last"] + 20 <= s <= c + 500:
+                    elif cls == "agg" and i <= j and info["t_last"] + 20 <= s <= c + 500 + L:
                         # (i == j: a held train answered in the block in which its hold ends, at least 400 ms after its last packet)
                         just = True
                     elif cls == "agg" and i == j and s < info["t_last"] + 20 and info["first_packet_rule"] and info["code_now"]:
@@ -760,16 +768,16 @@ def check_trace_O(res, box, case):
                                               "truncated train of %d packets with several questions in all, completed by an untruncated packet at %d ms and answered in that very "
                                               "block because its FIRST packet consists of a single SRV/A/AAAA/NSEC question: %s multicast without the 20-120 ms delay" % (
                                                   info["npkts"], s - T0, tr.uni.describe(rid)))
-                    elif cls == "agg" and i < j and info["npkts"] > 1 and info["t_first"] + 20 <= s < info["t_last"] + 20 and s <= c + 500:
+                    elif cls == "agg" and i < j and info["npkts"] > 1 and info["t_first"] + 20 <= s < info["t_last"] + 20 and s <= c + 500 + L:
                         # FINDING: the reply to a train completed by an untruncated packet is stamped with the FIRST packet's arrival, so a
                         # timer that is already due sends it less than 20 ms after the query (its last packet) arrived
                         finding = finding or ("C12:train-reply-before-jitter",
                                               "%s answers a truncated train (first packet %d ms, last packet %d ms) and is multicast at %d ms, %d ms after the query was complete "
                                               "(no earlier than 20 ms is required; the queue entry is stamped with the first packet's arrival)" % (
                                                   tr.uni.describe(rid), info["t_first"] - T0, info["t_last"] - T0, s - T0, s - info["t_last"]))
-                    elif cls == "prot" and i < j and info["t_last"] + 20 <= s <= c + 1200 and s >= info["seen"][0] + 1000:
+                    elif cls == "prot" and i < j and info["t_last"] + 20 <= s <= c + 1200 + L and s >= info["seen"][0] + 1000:
                         just = True
-                    elif cls == "free" and i <= j and c <= s <= c + 1200:
+                    elif cls == "free" and i <= j and c <= s <= c + 1200 + L:
                         just = True
                     elif info["dontcare"]:
                         just = True
@@ -798,7 +806,7 @@ def check_trace_O(res, box, case):
                 continue
             held = next((info for (i, b2, classes) in asms if i < j for (r2, cls, info) in classes
                          if r2 == rid and cls == "prot" and info["held_sighting"]
-                         and info["t_first"] + 1020 <= s <= b2["t"] + 1200 and s < info["seen"][0] + 1000), None)
+                         and info["t_first"] + 1020 <= s <= b2["t"] + 1200 + L and s < info["seen"][0] + 1000), None)
             if held is not None and d12 is None:
                 res.violate("C12:held-query-remulticast-within-1s",
                             "%s was seen multicast at %d ms, while a truncated query (first packet %d ms, last packet %d ms) was being held; the reply to that query "
@@ -826,7 +834,8 @@ def trace_case(seed, sc_no, box):
 def run_trace_stream(ctx, res, n, only=None):
     lines, boxes = [], []
     # n ordinary scenarios, plus n/8 in which services are unregistered while answers are queued (numbered from UNREG_BASE)
-    todo = only if only is not None else [(ctx["seed"], k) for k in range(n)] + [(ctx["seed"], UNREG_BASE + k) for k in range(n // 8)]
+    todo = only if only is not None else [(ctx["seed"], k) for k in range(n)] + [(ctx["seed"], UNREG_BASE + k) for k in range(n // 8)] + \
+        [(ctx["seed"], LATE_BASE + k) for k in range(n // 16)]
     for (seed, sc_no) in todo:
         box = run_scenario(seed, sc_no)
         if "tr" not in box:
@@ -867,7 +876,9 @@ def run_trace_stream(ctx, res, n, only=None):
             res.count("tr:withdrawals-of-queued-answers", sum(1 for b in tr.blocks if b["kind"] == "rm" and b.get("hit")))
             if any(b["kind"] == "rm" and b.get("hit") for b in tr.blocks):
                 res.nontriv("tr-unreg/%d/%d" % (sum(1 for b in tr.blocks if b["kind"] == "rm" and b.get("hit")), len(box["unregs"])))
-        if model is not None:
+        if box.get("late"):
+            res.count("tr:late-timer-scenarios (oracle only)")
+        if model is not None and not box.get("late"):
             parts = model[idx].split(" | ")
             head, mobs = parts[0], parts[1:]
             if mobs == [""]:
